@@ -25,6 +25,7 @@ type progCase struct {
 	NQ     int
 	Budget int
 	Kind   string
+	Lib    bool   // nevero / alwayso are the library's own micro.NeverO / micro.AlwaysO instead of the harness's relations of the same shape
 	DS     string                                   // Coq expression of the relation table ("" = hdefs)
 	Check  func(c progCase, o *ProgObs) []string    // extra direct oracle on the observation (runs in the parent)
 }
@@ -98,6 +99,11 @@ func genProgCases(cfg *Config, flavour string) []progCase {
 	for _, g := range fixedProgs() {
 		cases = append(cases, progCase{G: g, NQ: 1, Budget: 40, Kind: "fixed"})
 	}
+	for _, g := range fixedProgs() {
+		if strings.Contains(g.show(), "(nevero") || strings.Contains(g.show(), "(alwayso") {
+			cases = append(cases, progCase{G: g, NQ: 1, Budget: 40, Kind: "fixed", Lib: true})
+		}
+	}
 	pg := &progGen{r: r, allowNon: flavour != "C03", rels: []int{0, 1, 2, 3, 4, 5, 6, 7, 8, 9, 10, 11}}
 	for len(cases) < cfg.N {
 		nq := 1 + r.Intn(2)
@@ -153,7 +159,7 @@ func genProgCases(cfg *Config, flavour string) []progCase {
 		default:
 			g = pg.goal(2+r.Intn(9), nq)
 		}
-		cases = append(cases, progCase{G: g, NQ: nq, Budget: 30 + r.Intn(30), Kind: kind})
+		cases = append(cases, progCase{G: g, NQ: nq, Budget: 30 + r.Intn(30), Kind: kind, Lib: len(cases)%2 == 1})
 	}
 	return cases[:cfg.N]
 }
@@ -202,6 +208,7 @@ func expandMacro(g *G) *G {
 func observeProg(c progCase) *ProgObs {
 	env := queryEnv(c.NQ)
 	st0 := &micro.State{Substitutions: nil, Counter: uint64(c.NQ)}
+	libGoals = c.Lib
 	goal := build(c.G, env)
 	tr := observeTrace(goal(st0), c.Budget)
 	o := &ProgObs{Coq: tr.Coq, Show: tr.Show, Closed: tr.Closed, Extends: true}
@@ -308,6 +315,10 @@ func runProgs(cfg *Config, flavour string) *Report {
 	iso := isolate(flavour, cfg, len(cases), 40, 300*time.Millisecond)
 	for i, c := range cases {
 		desc := fmt.Sprintf("run %s with %d query variable(s), force budget %d", c.G.show(), c.NQ, c.Budget)
+		if c.Lib {
+			desc += " (nevero / alwayso = micro.NeverO / micro.AlwaysO)"
+			rep.hist("library NeverO/AlwaysO")
+		}
 		if cfg.Only >= 0 && cfg.Only != i {
 			cf.add("CaseP hdefs GFail 0 0 [ONil]")
 			rep.CaseDesc = append(rep.CaseDesc, "")
